@@ -313,6 +313,10 @@ structure SView where
   delta : Int
   /-- the fast scan axis runs along image axis −2 (down the rows): `scan_order[0] > scan_order[1]` -/
   fastRows : Bool := false
+  /-- the scan's own time window (`Scan.start`, `Scan.stop`): what time strings are relative to; stamped anew by every
+      `__getitem__` (not by `crop_by_pixels`) -/
+  tStart : Int := 0
+  tStop : Int := 0
 deriving Repr
 
 inductive SRes where
@@ -384,7 +388,97 @@ def SView.slice (v : SView) (a b : Option Int) (y0 y1 x0 x1 : Option Int) : SRes
 def SView.timeToFrame (v : SView) (t : Int) (isStart : Bool) : Int :=
   if isStart then searchsortedLeft (v.ranges.map (·.1)) t else searchsortedLeft (v.ranges.map (·.2)) t
 
+/-- `_FIRST_TIMESTAMP`: integers below it are frame indices, integers from it on are timestamps -/
+def firstTimestamp : Int := 1388534400000000000
+
+/-- `frame_timestamp_ranges(include_dead_time=True)` of a view with several frames: every frame lasts one frame
+    period (start of the second frame minus start of the first) -/
+def SView.deadRanges (v : SView) : List (Int × Int) :=
+  match v.ranges.map (·.1) with
+  | s0 :: s1 :: rest => (s0 :: s1 :: rest).map fun t => (t, t + (s1 - s0))
+  | _ => v.ranges
+
+/-- what `Scan.__getitem__` does to its result before returning it: start and stop become the start of the first and the
+    stop of the last frame range (dead time included iff there is more than one frame) -/
+def SView.stamp (w : SView) : SView :=
+  let rs := if w.numFrames > 1 then w.deadRanges else w.ranges
+  { w with tStart := (rs.head?.map (·.1)).getD 0, tStop := (rs.getLast?.map (·.2)).getD 0 }
+
+def SRes.stamp : SRes → SRes
+  | .view w => .view w.stamp
+  | r => r
+
+/-- a bound of the frame slice as the user writes it: `None`, an integer (frame index or timestamp), a time string -/
+inductive SBound where
+  | none
+  | num (n : Int)
+  | str (s : String)
+deriving Repr, DecidableEq
+
+/-- `_time_to_frame_index`: `None` stays `None`; a time string is resolved against the scan's own start / stop
+    (`RuntimeError` if `Timeindex` rejects it); an integer below `_FIRST_TIMESTAMP` is a frame index already, anything
+    else is looked up in the frame starts (start bound) or frame stops (stop bound) -/
+def SView.timeToFrameB (v : SView) (isStart : Bool) : SBound → Except Err (Option Int)
+  | .none => .ok none
+  | .num n => .ok (some (if n < firstTimestamp then n else v.timeToFrame n isStart))
+  | .str s =>
+    match C01.parseTime s with
+    | none => .error .runtimeError
+    | some ns =>
+      let t := C01.resolve v.tStart v.tStop 0 (.rel ns)
+      .ok (some (if t < firstTimestamp then t else v.timeToFrame t isStart))
+
+/-- the frame item of `scan[item]` -/
+inductive SFrameItem where
+  | int (i : Int)
+  | slice (a b : SBound) (step : Bool)
+  /-- a float, a list, … -/
+  | other
+deriving Repr, DecidableEq
+
+/-- a spatial item of `scan[frames, rows, columns]` -/
+inductive SAxisItem where
+  | slice (a b : Option Int) (step : Bool)
+  | int
+  | other
+deriving Repr, DecidableEq
+
+/-- `check_item(item, slicing_frames=False)` -/
+def SAxisItem.check : SAxisItem → Except Err (Option Int × Option Int)
+  | .slice a b step => if step then .error .indexError else .ok (a, b)
+  | .int => .error .indexError
+  | .other => .error .indexError
+
+/-- `Scan.__getitem__`: the frame item is checked and converted first, then the spatial items from left to right, then
+    the frames / pixels are selected, and a non-empty result gets its start / stop stamped -/
+def SView.getitem (v : SView) (fi : SFrameItem) (sp : List SAxisItem) : SRes :=
+  let frame : Except Err (Sum Int (Option Int × Option Int)) :=
+    match fi with
+    | .int i => .ok (.inl i)
+    | .other => .error .indexError
+    | .slice a b step =>
+      if step then .error .indexError else
+      match v.timeToFrameB true a with
+      | .error e => .error e
+      | .ok a' => match v.timeToFrameB false b with
+        | .error e => .error e
+        | .ok b' => .ok (.inr (a', b'))
+  match frame with
+  | .error e => .err e
+  | .ok fr =>
+    match sp.mapM SAxisItem.check with
+    | .error e => .err e
+    | .ok axes =>
+      let (y0, y1) := axes.getD 0 (none, none)
+      let (x0, x1) := axes.getD 1 (none, none)
+      match fr with
+      | .inl i => (v.index i y0 y1 x0 x1).stamp
+      | .inr (a', b') => (v.slice a' b' y0 y1 x0 x1).stamp
+
 inductive SOp where
+  /-- `crop_by_pixels`: no `__getitem__`, start / stop are copied -/
+  | cropxy (y0 y1 x0 x1 : Option Int)
+  | get (fi : SFrameItem) (sp : List SAxisItem)
   | index (i : Int) (y0 y1 x0 x1 : Option Int)
   | slice (a b : Option Int) (y0 y1 x0 x1 : Option Int)
   /-- slice by timestamps (`none` = open) -/
@@ -392,10 +486,12 @@ inductive SOp where
 deriving Repr
 
 def SView.apply (v : SView) : SOp → SRes
-  | .index i y0 y1 x0 x1 => v.index i y0 y1 x0 x1
-  | .slice a b y0 y1 x0 x1 => v.slice a b y0 y1 x0 x1
+  | .index i y0 y1 x0 x1 => (v.index i y0 y1 x0 x1).stamp
+  | .slice a b y0 y1 x0 x1 => (v.slice a b y0 y1 x0 x1).stamp
   | .sliceT a b =>
-    v.slice (a.map fun t => v.timeToFrame t true) (b.map fun t => v.timeToFrame t false) none none none none
+    (v.slice (a.map fun t => v.timeToFrame t true) (b.map fun t => v.timeToFrame t false) none none none none).stamp
+  | .cropxy y0 y1 x0 x1 => v.slice none none y0 y1 x0 x1
+  | .get fi sp => v.getitem fi sp
 
 def runS (v : SView) : List SOp → SRes
   | [] => .view v
@@ -483,6 +579,13 @@ def kop? (s : String) : Option KOp :=
 
 def oi? (s : String) : Option (Option Int) := optInt? s
 
+def sbound? (s : String) : Option SBound :=
+  match kbound? s with
+  | some .none => some .none
+  | some (.ts t) => some (.num t)
+  | some (.str x) => some (.str x)
+  | none => none
+
 def sop? (s : String) : Option SOp :=
   match s.splitOn ":" with
   | ["index", i, y0, y1, x0, x1] => do
@@ -492,6 +595,23 @@ def sop? (s : String) : Option SOp :=
     let a ← oi? a; let b ← oi? b; let y0 ← oi? y0; let y1 ← oi? y1; let x0 ← oi? x0; let x1 ← oi? x1
     some (.slice a b y0 y1 x0 x1)
   | ["slicet", a, b] => do let a ← oi? a; let b ← oi? b; some (.sliceT a b)
+  | ["cropxy", y0, y1, x0, x1] => do
+    let y0 ← oi? y0; let y1 ← oi? y1; let x0 ← oi? x0; let x1 ← oi? x1
+    some (.cropxy y0 y1 x0 x1)
+  | "get" :: fi :: sp => do
+    let fi ← (match fi.splitOn "," with
+      | ["i", i] => (i.toInt?).map SFrameItem.int
+      | ["s", a, b] => do let a ← sbound? a; let b ← sbound? b; some (.slice a b false)
+      | ["sstep", a, b] => do let a ← sbound? a; let b ← sbound? b; some (.slice a b true)
+      | ["o"] => some .other
+      | _ => none)
+    let sp ← sp.mapM fun t => (match t.splitOn "," with
+      | ["s", a, b] => do let a ← oi? a; let b ← oi? b; some (SAxisItem.slice a b false)
+      | ["sstep", a, b] => do let a ← oi? a; let b ← oi? b; some (SAxisItem.slice a b true)
+      | ["i"] => some .int
+      | ["o"] => some .other
+      | _ => none)
+    some (.get fi sp)
   | _ => none
 
 def showSRes : SRes → String
@@ -503,11 +623,12 @@ def showSRes : SRes → String
       ++ " ts=" ++ "|".intercalate (v.timestamps.map fun f => "[" ++ ";".intercalate (f.map fun r => ",".intercalate (r.map toString)) ++ "]")
       ++ " pt=" ++ (match v.pixelTime with | some t => toString t | none => "U")
       ++ " ppl=" ++ toString v.pixelsPerLine ++ " lpf=" ++ toString v.linesPerFrame
+      ++ " start=" ++ toString v.tStart ++ " stop=" ++ toString v.tStop
 
 
 /-- ops:
   `c06.kymo <img rows of v:tmin:tmax> <delta> <px p/q> <unit> <pxum p/q|N> <linetime p/q> <scantime p/q> <pixeltime ns> <start> <stop> op…`
-  `c06.scan <frames: rows of v:tmin:tmax pixels, frames separated by |> <delta> <fastRows 0|1> op…` -/
+  `c06.scan <frames: rows of v:tmin:tmax pixels, frames separated by |> <delta> <fastRows 0|1> <start> <stop> op…` -/
 def handle : List String → Option String
   | "c06.kymo" :: img :: delta :: px :: unit :: pxum :: lt :: st :: pt :: t0 :: t1 :: ops => do
     let img ← listListOf? pix? img
@@ -520,12 +641,13 @@ def handle : List String → Option String
     let t0 ← int? t0; let t1 ← int? t1
     let v : KView := ⟨img, true, delta, px, unit, pxum, lt, st, false, 0, pt, ratToFloat px, t0, t1⟩
     some (showKRes (runK v ops))
-  | "c06.scan" :: frames :: delta :: fastRows :: ops => do
+  | "c06.scan" :: frames :: delta :: fastRows :: t0 :: t1 :: ops => do
     let frames ← (frames.splitOn "|").mapM (listListOf? pix?)
     let delta ← int? delta
     let fastRows ← nat? fastRows
     let ops ← ops.mapM sop?
-    some (showSRes (runS ⟨frames, delta, fastRows == 1⟩ ops))
+    let t0 ← int? t0; let t1 ← int? t1
+    some (showSRes (runS ⟨frames, delta, fastRows == 1, t0, t1⟩ ops))
   | _ => none
 
 end Verif.C06
